@@ -49,7 +49,28 @@ def generate(rnd, n):
     v = ugen.Vocab()
     ug = ugen.UnitGen(v, rnd, maxpow=2)
     out = []
+    FAR = [7, 31, 64, 127, 128, 129, 255, 256, 257, 511, 512, 1000, 32767, 32768, 65535, 65536, 65537, 99999]
+    EXPAND = {"N": [("kg", 1), ("m", 1), ("s", -2)], "J": [("kg", 1), ("m", 2), ("s", -2)], "W": [("kg", 1), ("m", 2), ("s", -3)], "Pa": [("kg", 1), ("m", -1), ("s", -2)],
+              "Hz": [("s", -1)], "C": [("A", 1), ("s", 1)], "V": [("kg", 1), ("m", 2), ("s", -3), ("A", -1)]}
     for _ in range(n):
+        if rnd.random() < 0.06:
+            # large powers: the dimension vectors of the two sides agree, or differ by a power of two (an exponent kept in
+            # too narrow a type), or by one
+            u = rnd.choice(["m", "s", "kg", "A", "mol", "cd"] + sorted(EXPAND))
+            pw = rnd.choice(FAR) * rnd.choice([1, 1, -1])
+            delta = rnd.choice([0, 0, 0, 1, -1, 256, -256, 512, 65536, -65536, 2 * pw if abs(pw) < 40000 else 256])
+            left = "%s^%d" % (u, pw)
+            if u in EXPAND and rnd.random() < 0.6 and abs(pw) < 40000:
+                right = "*".join("%s^%d" % (b, e * pw + (delta if k == 0 else 0)) for k, (b, e) in enumerate(EXPAND[u]))
+            elif pw + delta == 0:
+                right = "%s^%d" % (u, pw)
+            else:
+                right = "%s^%d" % (u, pw + delta)
+            extra = rnd.choice(["", "", " s", " m"]) if u not in ("s", "m") else ""
+            ma, mb = ugen.magnitude(rnd, True), ugen.magnitude(rnd, True)
+            out.append(rnd.choice(["%s %s%s + %s %s%s" % (ma, left, extra, mb, right, extra), "%s %s%s - %s %s%s" % (ma, left, extra, mb, right, extra),
+                                   "%s %s%s to %s%s" % (ma, left, extra, right, extra), "%s %s%s to %s%s" % (ma, right, extra, left, extra)]))
+            continue
         a = ug.expr()
         c = rnd.random()
         if c < 0.55:
